@@ -62,6 +62,25 @@ def if_value_many_consts(n):
     return "t = True\n" + "".join(f"print! {i + 1000}\n" for i in range(n)) + "x = if t, do 7\nprint! x\n"
 
 
+def line_gap_programs():
+    """consecutive statements k lines apart for every k that sits on an edge of a line-table encoding
+    (lnotab: signed byte deltas, 3.10: 127 / -128, 3.11: varints of 6-bit groups -> 32, 64, 2048...), at module
+    level, inside a procedure body, and as the distance between a def header and the end of its body"""
+    gaps = list(range(1, 71)) + [126, 127, 128, 129, 254, 255, 256, 257, 2047, 2048, 2049, 2079, 2080]
+    mod = []
+    for k in gaps:
+        mod.append("\n" * (k - 1) + f"print! {k}")
+    module = "\n".join(mod) + "\n"
+    body = []
+    for k in gaps:
+        body.append("\n" * (k - 1) + f"    print! {k}")
+    func = "f!() =\n" + "\n".join(body) + "\n    0\nprint! f!()\n"
+    defs = []
+    for k in (1, 2, 31, 32, 33, 63, 64, 65, 127, 128, 129):
+        defs.append(f"g{k}!() =\n" + "\n" * (k - 1) + f"    print! {k}\n    {k}\nprint! g{k}!()")
+    return {"line-gaps-module": module, "line-gaps-procedure-body": func, "line-gaps-def-to-body-end": "\n".join(defs) + "\n"}
+
+
 def programs(tier):
     """-> [(family, source, target versions)].  quick: every structural family for all five targets, the expression-level
     families (C01, C12: their bytecode shape does not depend on the target beyond the call protocol) for 3.8 and 3.11 and
@@ -77,6 +96,7 @@ def programs(tier):
             vs = VERSIONS
         out.append((fam, src, vs))
     out += [(f"c14:{name}", src, VERSIONS) for name, src in C14_CONSTRUCTS.items()]
+    out += [(f"c14:{name}", src, VERSIONS) for name, src in line_gap_programs().items()]
     for n in ((10, 300) if quick else (10, 200, 300, 1000)):
         out.append((f"if-value-after-consts:{n}", if_value_many_consts(n), VERSIONS))
     seen = set()
